@@ -48,24 +48,19 @@ func CheckC06(c *Ctx, entry, input string) {
 	c.Eval()
 	c.Count("inputs", 1)
 	single := entryOfRoot(entry)
+	starts, ends, aligned := lexBoundaries(input)
 	for ri, root := range p.Roots {
 		infos := astx.Nodes(root)
 		failed := make([]bool, len(infos)) // this node or a descendant failed
-		for i := len(infos) - 1; i >= 0; i-- {
-			in := infos[i]
+		// ranges and token alignment of every node, up front
+		type rng struct {
+			a, b           int
+			ok             bool
+			misPos, misEnd bool
+		}
+		rs := make([]rng, len(infos))
+		for i, in := range infos {
 			if in.TypedNil {
-				continue
-			}
-			// descendants failed? (children have larger indices and were processed already)
-			descFailed := false
-			for j := i + 1; j < len(infos) && infos[j].Depth > in.Depth; j++ {
-				if failed[j] {
-					descFailed = true
-					break
-				}
-			}
-			if descFailed {
-				failed[i] = true
 				continue
 			}
 			ps, pv1 := PosOf(in.Node)
@@ -73,12 +68,46 @@ func CheckC06(c *Ctx, entry, input string) {
 			if pv1 != nil || pv2 != nil {
 				continue
 			}
-			a, b := int(ps), int(es)
-			if !(0 <= a && a < b && b <= len(input)) {
+			r := rng{a: int(ps), b: int(es)}
+			r.ok = 0 <= r.a && r.a < r.b && r.b <= len(input)
+			if r.ok && aligned {
+				r.misPos, r.misEnd = !starts[r.a], !ends[r.b]
+			}
+			rs[i] = r
+		}
+		for i := len(infos) - 1; i >= 0; i-- {
+			in := infos[i]
+			if in.TypedNil {
+				continue
+			}
+			// descendants failed? (descendants have larger indices and were processed already)
+			descFailed := false
+			inherited := false
+			for j := i + 1; j < len(infos) && infos[j].Depth > in.Depth; j++ {
+				if failed[j] {
+					descFailed = true
+					break
+				}
+				// a bound that is not token-aligned and comes from a descendant is the descendant's finding (C05 reports it)
+				if rs[j].ok && ((rs[j].misEnd && rs[j].b == rs[i].b) || (rs[j].misPos && rs[j].a == rs[i].a)) {
+					inherited = true
+				}
+			}
+			if descFailed {
+				failed[i] = true
+				continue
+			}
+			if !rs[i].ok {
 				c.Count("skipped_bad_range_left_to_C05", 1)
 				failed[i] = true
 				continue
 			}
+			if inherited {
+				c.Count("skipped_bound_inherited_from_misaligned_descendant", 1)
+				failed[i] = true
+				continue
+			}
+			a, b := rs[i].a, rs[i].b
 			tn := astx.TypeName(in.Node)
 			c.Count("nodes", 1)
 			// (a) stand-alone parse of the node's own text
